@@ -57,25 +57,28 @@ def main():
     if not ok:
         print(out1[-800:])
     # run the checks on /repo with the change applied
-    rc, out = sh('git status --porcelain --untracked-files=no', '/repo')
+    # EVAL_IN_WT=1: the checks import the library from the scratch worktree with the change applied (VERIF_REPO), so that /repo stays
+    # free for other work; the stored seeds are re-run against /repo itself by tools/recheck_seed.py / run_all_seeds.py
+    target = wt if os.environ.get('EVAL_IN_WT') else '/repo'
+    rc, out = sh('git status --porcelain --untracked-files=no', target)
     if out.strip():
-        print('/repo is not clean, refusing:', out)
+        print('%s is not clean, refusing:' % target, out)
         return 2
-    rc, out = sh('git apply %s || git apply -C1 %s' % (patch, patch), '/repo')
+    rc, out = sh('git apply %s || git apply -C1 %s' % (patch, patch), target)
     if rc:
-        print('patch does not apply to /repo:', out)
+        print('patch does not apply to %s:' % target, out)
         return 2
     meta['checks'] = {}
     try:
         for cid in [prop] + extra:
-            rcc, outc = sh('./check %s --tier quick' % cid, VERIF, 3600)
+            rcc, outc = sh('VERIF_REPO=%s ./check %s --tier quick' % (target, cid), VERIF, 3600)
             keys = [l.strip()[4:] for l in outc.splitlines() if l.startswith('  key=')]
             meta['checks'][cid] = {'exit': rcc, 'new_keys': keys[:12], 'n_new_keys': len(keys)}
             print('  check %s: exit %d, %d new keys %s' % (cid, rcc, len(keys), keys[:4]))
             if rcc == 2:
                 print(outc[-1500:])
     finally:
-        sh('git checkout -- .', '/repo')
+        sh('git checkout -- .', target)
     dst = os.path.join(VERIF, 'seeded', '%s-%s' % (prop, store_var))
     os.makedirs(dst, exist_ok=True)
     shutil.copy(patch, os.path.join(dst, 'patch.diff'))
